@@ -79,6 +79,28 @@ def kernel_self_check(ctx, g):
     ctx.obligation('translator-self-check:kernels(traced pixels = real kernel builders on %d values)' % n, bad == 0 and n > 0, '%d mismatches' % bad)
 
 
+# ---------------------------------------------------------------- the concrete DFT instance
+DFT_THEOREMS = ['dft_energy_conserved', 'dft_energy_le', 'dft_custom_compose', 'dft_custom_id', 'dft_custom_linear', 'dft_custom_zero',
+                'dft_custom_mask_idem', 'dft_custom_second_pass_energy', 'dft_custom_shift', 'dft_steps_fold', 'dft_centered_energy_unit',
+                'dft_centered_energy_le', 'dft_centered_compose', 'dft_centered_id', 'dft_centered_linear', 'dft_conv_centered_linear', 'dft_fraun_linear']
+
+
+def dft_instance(ctx):
+    """the contracts are PROVED for the concrete 2-D DFT (Wave/Dft1, Dft2) and the abstract theorems instantiated
+    (Wave/DftInstance); what stays trusted is that fft2/ifft2/fftshift/ifftshift of the libraries compute F2/Finv2/S2/Sinv2
+    (checked numerically in fft_contracts: identification_* residuals)."""
+    ctx.ensure_theories(['theories/Wave/DftInstance.vo'])
+    ctx.theorems('OdakV.Wave.Dft2', ['dft_contracts', 'dft_modulation'])
+    ctx.theorems('OdakV.Wave.DftInstance', DFT_THEOREMS)
+
+
+def _naive_dft2(u, sign):
+    n, m = u.shape[-2:]
+    wn = np.exp(sign * 2j * np.pi * np.outer(np.arange(n), np.arange(n)) / n)
+    wm = np.exp(sign * 2j * np.pi * np.outer(np.arange(m), np.arange(m)) / m)
+    return np.einsum('ki,...ij,jl->...kl', wn, u, wm)
+
+
 # ---------------------------------------------------------------- contracts of the external FFT library
 def fft_contracts(ctx):
     """the Section hypotheses of OdakV.Wave.Fields, checked numerically against torch.fft and numpy.fft"""
@@ -102,6 +124,13 @@ def fft_contracts(ctx):
             e = lambda x: float((ab(x) ** 2).sum())
             sc = max(1.0, float(ab(U).max()))
             note('Finv_F', ab(Fi(F(U)) - U).max() / sc); note('F_Finv', ab(F(Fi(U)) - U).max() / sc)
+            # identification with the Coq definitions: F2 = sum u w^(ik) w^(jl) with w = exp(-2 pi i / n); Finv2 = conj / (n m);
+            # S2 = roll by floor(n/2); Sinv2 = roll by n - floor(n/2)
+            tn = (lambda x: x) if lib == 'numpy' else (lambda x: x.numpy())
+            note('identification_F2', np.abs(tn(F(U)) - _naive_dft2(u, -1)).max() / (sc * n * m))
+            note('identification_Finv2', np.abs(tn(Fi(U)) - _naive_dft2(u, +1) / (n * m)).max() / sc)
+            note('identification_S2', np.abs(tn(S(U)) - np.roll(u, (n // 2, m // 2), axis=(-2, -1))).max())
+            note('identification_Sinv2', np.abs(tn(Si(U)) - np.roll(u, (n - n // 2, m - m // 2), axis=(-2, -1))).max())
             note('parseval(N=n*m)', abs(e(F(U)) - n * m * e(U)) / (n * m * e(U)))
             note('F_linear', ab(F(a * U + V) - (a * F(U) + F(V))).max() / (sc * n * m))
             note('S_Sinv', ab(S(Si(U)) - U).max()); note('Sinv_S', ab(Si(S(U)) - U).max())
@@ -118,7 +147,7 @@ def fft_contracts(ctx):
     ok = all(v <= 1e-9 for v in worst.values())
     ctx.extra['fft_contract_residuals'] = {k: float('%.3g' % v) for k, v in worst.items()}
     ctx.obligation('contract-validation:fft2/ifft2/fftshift/ifftshift of torch and numpy meet the Section hypotheses (12 shapes incl. odd, 1xk, batched)', ok, str(worst))
-    ctx.trusted.append('FFT/shift contracts of OdakV.Wave.Fields (Section hypotheses; validated numerically each run against torch.fft and numpy.fft, not proved of the library)')
+    ctx.trusted.append('FFT/shift contracts of OdakV.Wave.Fields: PROVED for the concrete 2-D DFT F2/Finv2/S2/Sinv2 (Wave/Dft2.dft_contracts, dft_modulation); trusted: that torch.fft / numpy.fft fft2, ifft2, fftshift, ifftshift compute F2, Finv2, S2, Sinv2 (validated numerically each run: identification_* residuals)')
 
 
 # ---------------------------------------------------------------- implementation runners
